@@ -513,3 +513,46 @@ Proof.
     + left. exists (S n). cbn [firstn]. rewrite run_cons. exact Hn.
     + right. eapply monoL_trans; eassumption.
 Qed.
+
+(* Without `alive` the history theorems are refuted from a forged world: the under-funded distribution above is purged
+   together with its (forged, zero-lamport) 2Z token account, and a program config whose next epoch equals the purged
+   distribution's epoch lets InitializeDistribution create a NEW distribution at the same address: every flag is
+   false again and the snapshot is the new configuration's.  (None of the three ingredients is reachable by honest
+   operations from an honestly initialised program: distributions are funded by FinalizeRewards, zero-lamport accounts
+   do not exist between transactions, and the next epoch only grows.) *)
+Definition r_cfg : rd_config :=
+  rd_config_default <| c_debt_accountant := KUser 1 |> <| c_next_epoch := 7 |> <| c_init_grace_min := 1 |> <| c_calc_grace_min := 1 |>
+    <| c_fees := {| fp_base := 1; fp_priority := 0; fp_inflation := 0; fp_jito := 0; fp_fixed := 0 |} |>
+    <| c_burn := mkP 500000000 2 5 400000000 4 100000000 |> <| c_relay := 6000 |>.
+Definition r_payer : key := KUser 20.
+Definition r_W : world :=
+  {| accts := [ (KRdConfig, {| lamports := rent LEN_CONFIG_ALLOC; owner := KRd; alen := LEN_CONFIG_ALLOC; data := DConfig r_cfg |});
+                (w_dk, {| lamports := 1000000; owner := KRd; alen := LEN_DIST + 1; data := DDist w_dist [0] |});
+                (KRdContrib w_svc, {| lamports := rent LEN_CONTRIB; owner := KRd; alen := LEN_CONTRIB;
+                    data := DContrib {| cr_manager := KUser 13; cr_service := w_svc; cr_blocked := false; cr_recipients := [(w_rk, 10000)] |} |});
+                (KTok2z w_dk, w_tok w_dk <| lamports := 0 |>);
+                (KMint, {| lamports := rent LEN_MINT; owner := KToken; alen := LEN_MINT; data := DMint {| m_supply := 0; m_decimals := 8 |} |});
+                (KAta w_rk KMint, w_tok w_rk);
+                (KRdJournal, {| lamports := rent LEN_CONFIG_ALLOC; owner := KRd; alen := LEN_CONFIG_ALLOC; data := DJournal journal_default |});
+                (r_payer, {| lamports := 1000000000; owner := KSystem; alen := 0; data := DEmpty |}) ];
+     now := 1000 |}.
+Definition r_tx_init : tx :=
+  {| tx_signers := [KUser 1; r_payer];
+     tx_ixs := [ {| i_prog := KRd; i_data := IxRd RInitializeDistribution;
+                    i_metas := [mk KRdConfig false true; mk (KUser 1) true false; mk r_payer true true; mk w_dk false true;
+                                mk (KTok2z w_dk) false true; mk KMint false false; mk KToken false false;
+                                mk KRdJournal false true; mk (KTok2z KRdJournal) false false; mk (KAta KRdJournal KMint) false false;
+                                mk KSystem false false] |} ] |}.
+Definition r_ops : list op := [OTx w_tx; OTx r_tx_init].
+Example run_unconditional_refuted :
+  ~ (forall ops W k d tl d' tl', Forall honest_op ops ->
+       dist_at W k = Some (d, tl) -> dist_at (run W ops) k = Some (d', tl') ->
+       implb (d_debt_final d) (d_debt_final d') = true /\ d_relay d' = d_relay d).
+Proof.
+  intros H.
+  assert (E : exists d' tl', dist_at (run r_W r_ops) w_dk = Some (d', tl') /\ d_debt_final d' = false /\ d_relay d' = 6000)
+    by (eexists _, _; split; [vm_compute; reflexivity|split; reflexivity]).
+  destruct E as (d' & tl' & E & F & G).
+  destruct (H r_ops r_W w_dk w_dist [0] d' tl') as [A B]; [repeat constructor|vm_compute; reflexivity|exact E|].
+  rewrite G in B. vm_compute in B. discriminate B.
+Qed.
